@@ -8,7 +8,7 @@ implementation: emmet.abbreviation.parse (tokenize + parse + convert, attributes
 exactly the node(s) the SPEC gives.  The same texts go through the extracted model (coq/run/TextRun.v,
 `parse_abbr`), which the theorems speak about.  Nothing here imports parser/convert code of the implementation.
 
-Element  := name part* text? '/'?  part := '#'word | '.'word | '[' attr (' ' attr)* ']'      text := '{' e '}'
+Element  := name part* text? '/'?  part := '#'+ word | '.'+ word | '[' attr (' ' attr)* ']'      text := '{' e '}'
 attr     := '!'? aname '.'? value  value := '' | '=' | '='unq | "='" q "'" | '="' q '"' | '={' e '}'
 """
 import json
@@ -143,10 +143,14 @@ def rand_elem(rng, jsx=False, nparts=None):
     n = rng.choice([0, 1, 1, 2, 2, 3, 4, 6]) if nparts is None else nparts
     for _ in range(n):
         k = rng.random()
+        dup = rng.choice([1, 1, 1, 1, 2, 2, 3])         # `..x`: the operator repeated = a "multiple" mention
+        # (a multiple mention may be rewritten by markup.valuePrefix -- jsx `styles.x` / `styles['x']` by a \w test that the
+        # independent statement in attr_util makes over ASCII: keep those values ASCII)
+        wide = rng.random() < 0.3 and dup == 1
         if k < 0.25:
-            parts.append(('id', rword(rng, NAME_CH if rng.random() < 0.3 else LETTERS + DIGITS + '-_', 1, 4)))
+            parts.append(('id', rword(rng, NAME_CH if wide else LETTERS + DIGITS + '-_', 1, 4), dup))
         elif k < 0.55:
-            parts.append(('class', rword(rng, NAME_CH if rng.random() < 0.3 else LETTERS + DIGITS + '-_', 1, 4)))
+            parts.append(('class', rword(rng, NAME_CH if wide else LETTERS + DIGITS + '-_', 1, 4), dup))
         else:
             parts.append(('set', [rand_attr(rng) for _ in range(rng.choice([0, 1, 1, 2, 3, 5]))]))
     text = rand_braced(rng) if rng.random() < 0.35 else None          # (written, value)
@@ -157,10 +161,11 @@ def rand_text_elem(rng, jsx=False):
     """C04_text_with_attributes: an element with plainly named attributes and ALWAYS a text {T}."""
     e = rand_elem(rng, jsx)
     parts = []
-    for kind, x in e['parts']:
+    for part in e['parts']:
+        kind, x = part[0], part[1]
         if kind == 'set':
-            x = [a for a in x if not a['implied'] and not a['boolean'] and a['name']]
-        parts.append((kind, x))
+            part = (kind, [a for a in x if not a['implied'] and not a['boolean'] and a['name']])
+        parts.append(part)
     e['parts'] = parts
     e['text'] = rand_braced(rng)
     return e
@@ -168,11 +173,13 @@ def rand_text_elem(rng, jsx=False):
 
 def elem_text(e):
     out = [e['name']]
-    for kind, x in e['parts']:
+    for part in e['parts']:
+        kind, x = part[0], part[1]
+        dup = part[2] if len(part) > 2 else 1
         if kind == 'id':
-            out.append('#' + x)
+            out.append('#' * dup + x)
         elif kind == 'class':
-            out.append('.' + x)
+            out.append('.' * dup + x)
         else:
             out.append('[' + ' '.join(a['text'] for a in x) + ']')
     if e.get('text') is not None:
@@ -190,9 +197,10 @@ def payload(v):
 def mentions_of(e):
     """written_mentions (AttrTextConvert.v): (name, value, value type, boolean, implied, multiple) per mention."""
     out = []
-    for kind, x in e['parts']:
+    for part in e['parts']:
+        kind, x = part[0], part[1]
         if kind in ('id', 'class'):
-            out.append((kind, (('s', x),), 0, False, False, False))
+            out.append((kind, (('s', x),), 0, False, False, len(part) > 2 and part[2] > 1))
             continue
         for a in x:
             if a['kind'] in ('none', 'empty'):
@@ -279,6 +287,7 @@ SEEDS = [
     lit('p', ('set', [attr('t', 'q2', '="]"', ']', 2)]), text=('', '')),
     lit('p', ('id', 'i'), text=(' [x] {y{z}} \\$ ', ' [x] {y{z}} $ ')),
     lit('x1', close=True),
+    lit('x', ('class', 'm', 2), ('id', 'n', 3), ('class', 'k')),
     lit('x', ('class', 'a1'), ('set', [attr('b', 'none', '', None, 0, boolean=True)]), close=True),
     lit('x', ('id', 'i'), text=('t', 't'), close=True),
 ]
@@ -416,9 +425,10 @@ def au_mentions(e):
     """The written mentions in attr_util's form (input of its independent merge + output statement)."""
     import attr_util as au
     out = []
-    for kind, x in e['parts']:
+    for part in e['parts']:
+        kind, x = part[0], part[1]
         if kind in ('id', 'class'):
-            out.append(au.mention(kind, x, 'raw', form=kind))
+            out.append(au.mention(kind, x, 'raw', multiple=len(part) > 2 and part[2] > 1, form=kind))
             continue
         for a in x:
             vt = {'none': 'raw', 'empty': 'raw', 'unq': 'raw', 'q1': 'q1', 'q2': 'q2', 'expr': 'expr'}[a['kind']]
